@@ -434,5 +434,5 @@ pub fn run_c05(scn: &Scenario, prop: &str, explore: bool) -> RunResult {
 pub fn gen_c05(seed: u64, tier: crate::checks::Tier) -> Scenario {
     let mut knobs = BTreeMap::new();
     knobs.insert("subruns".to_string(), if tier == crate::checks::Tier::Quick { 400 } else { 2000 });
-    Scenario { seed, env: EnvCfg { env_seed: seed, real_base_s: 1_700_000_000, jumpy_pm: 0 }, ops: vec![], fault: Default::default(), fault_ops: vec![], post: None, knobs }
+    Scenario { seed, env: EnvCfg { env_seed: seed, real_base_s: 1_700_000_000, jumpy_pm: 0 }, ops: vec![], fault: Default::default(), fault_ops: vec![], post: None, medium: None, knobs }
 }
